@@ -133,11 +133,24 @@ pub fn run_case<G: AffineRepr>(run: u64, case: &Case, st: &mut Stats) {
                 v
             }
             2 => (0..n).map(|i| if i < n / 2 { F::<G>::one() } else { y }).collect(),
+            // ones and non-ones in every arrangement (the R1CS prover only ever passes ones
+            // followed by u; the property quantifies over all non-zero factor vectors)
+            4 => (0..n).map(|i| if i < n / 2 { y } else { F::<G>::one() }).collect(),
+            5 => {
+                let at = below(rng, n);
+                (0..n).map(|i| if i == at { y } else { F::<G>::one() }).collect()
+            }
+            6 => (0..n).map(|_| if chance(rng, 1, 2) { F::<G>::one() } else { y }).collect(),
+            7 => {
+                let at = below(rng, n + 1);
+                let sm = [F::<G>::one(), -F::<G>::one(), F::<G>::from(2u64), y];
+                (0..n).map(|i| if i < at { sm[below(rng, 4)] } else { sm[below(rng, 2)] }).collect()
+            }
             _ => (0..n).map(|_| loop { let x = F::<G>::rand(rng); if !x.is_zero() { break x } }).collect(),
         }
     };
-    let gf = mk_f(case.fac_kind % 4, &mut rng);
-    let hf = mk_f((case.fac_kind / 4) % 4, &mut rng);
+    let gf = mk_f(case.fac_kind % 8, &mut rng);
+    let hf = mk_f((case.fac_kind / 8) % 8, &mut rng);
     let viol = |st: &mut Stats, oracle: &str, t: &IppTamper, detail: String| {
         let mut c = case.clone();
         c.tampers = vec![t.clone()];
@@ -305,7 +318,7 @@ pub fn run_case<G: AffineRepr>(run: u64, case: &Case, st: &mut Stats) {
         }
     }
     st.log_digest(run, &pb);
-    st.sample(run, json!({"curve": case.curve.name(), "k": case.k, "vector_kinds": [case.vec_kind % 7, (case.vec_kind / 7) % 7], "factor_kinds": [case.fac_kind % 4, (case.fac_kind / 4) % 4], "degenerate": degenerate, "tampers": case.tampers}));
+    st.sample(run, json!({"curve": case.curve.name(), "k": case.k, "vector_kinds": [case.vec_kind % 7, (case.vec_kind / 7) % 7], "factor_kinds": [case.fac_kind % 8, (case.fac_kind / 8) % 8], "degenerate": degenerate, "tampers": case.tampers}));
 }
 
 pub fn case_for(seed: u64, tier: Tier, run: u64) -> Case {
@@ -319,14 +332,14 @@ pub fn case_for(seed: u64, tier: Tier, run: u64) -> Case {
         use rand_core::RngCore;
         let mut rng = sub_rng(seed, "C10", run, "long");
         let k = 8 + below(&mut rng, tier.pick(2, 3));
-        return Case { curve: CURVES[(run % 3) as usize], k, vec_kind: (rng.next_u32() % 49) as u8, fac_kind: (rng.next_u32() % 16) as u8, seed: rng.next_u64(), tampers: vec![IppTamper::None, IppTamper::WrongProduct(S::U(1))] };
+        return Case { curve: CURVES[(run % 3) as usize], k, vec_kind: (rng.next_u32() % 49) as u8, fac_kind: (rng.next_u32() % 64) as u8, seed: rng.next_u64(), tampers: vec![IppTamper::None, IppTamper::WrongProduct(S::U(1))] };
     }
     // small k more often; every k regularly
     let k = if run < 3 * (kmax as u64 + 1) { (run / 3) as usize } else { std::cmp::min(below(&mut rng, kmax + 1), below(&mut rng, kmax + 2)) };
     let k = std::cmp::min(k, kmax);
     let n = 1usize << k;
     let vec_kind = (rng.next_u32() % 49) as u8;
-    let fac_kind = (rng.next_u32() % 16) as u8;
+    let fac_kind = (rng.next_u32() % 64) as u8;
     let d = || S::U(1);
     let mut all = vec![
         IppTamper::None,
@@ -368,7 +381,7 @@ pub fn run(ctx: &Ctx) -> i32 {
         stats,
         Report {
             level: "exploration",
-            rule: "inner-product sessions through the guarded re-export: k in 0..=kmax, vectors from {dense, sparse, zero half, 0/1, single non-zero, all zero, special values}, factors from {ones, powers of a challenge, 1|y split, uniform non-zero}, random Q, three curves. The created proof must EQUAL the reference prover's (explicit folding) in every round and final scalar, have exactly k rounds, and produce the scheduled transcript history; then each tampered variant (wrong product, wrong P, a/b altered, round negated/swapped/replaced/identity/dropped/added, factor altered, claimed n doubled/halved, unequal lists) is judged by real verify and by the reference verifier; verdicts must coincide (degenerate identity cross terms are rejected by design by both). distinct by (curve, k, vector kinds, factor kinds, tamper kind, verdict)".into(),
+            rule: "inner-product sessions through the guarded re-export: k in 0..=kmax, vectors from {dense, sparse, zero half, 0/1, single non-zero, all zero, special values}, factors from {ones, powers of a challenge, 1|y split, y|1 split, single non-one among ones, random mix of ones and y, small special values (1, -1, 2, y) mixed, uniform non-zero}, random Q, three curves. The created proof must EQUAL the reference prover's (explicit folding) in every round and final scalar, have exactly k rounds, and produce the scheduled transcript history; then each tampered variant (wrong product, wrong P, a/b altered, round negated/swapped/replaced/identity/dropped/added, factor altered, claimed n doubled/halved, unequal lists) is judged by real verify and by the reference verifier; verdicts must coincide (degenerate identity cross terms are rejected by design by both). distinct by (curve, k, vector kinds, factor kinds, tamper kind, verdict)".into(),
             exhaustive: false,
             assumptions: base_assumptions(),
             real_components: REAL.to_vec(),
